@@ -258,6 +258,16 @@ def resolve(d, op, st_):
     if not rows:
       return None
     return ['RemoveRecord', sid, rows[0]] if len(rows) == 1 else ['BulkRemoveRecord', sid, rows]
+  if k == 'move':
+    rep = d.fetch_repr(sid)
+    pos = rep[3].get('manualSort')
+    if not pos or len(rep[2]) < 2:
+      return None
+    i = 1 + int(op.get('a', 0)) % (len(rep[2]) - 1)
+    nums = [p for p in pos if isinstance(p, (int, float)) and not isinstance(p, bool)]
+    if not nums:
+      return None
+    return ['UpdateRecord', sid, rep[2][i], {'manualSort': min(nums) / 2.0}]   # drag the row to the top
   if k == 'summary':
     chosen = _mask(groupable(cols), op.get('mask', 1))
     return ['CreateViewSection', sref, 0, 'record', [c['id'] for c in chosen], None]
@@ -484,7 +494,7 @@ _sel = st.integers(0, 7)
 _mask6 = st.integers(0, 63)
 
 WEIGHTS = {'add': 10, 'upd': 22, 'rm': 8, 'rmpeople': 2, 'summary': 4, 'regroup': 8, 'rmsection': 1, 'rencol': 2,
-           'rentable': 1, 'modtype': 8, 'rmcol': 3, 'addcol': 2, 'addf': 3, 'undo': 8}
+           'rentable': 1, 'modtype': 8, 'rmcol': 3, 'addcol': 2, 'addf': 3, 'undo': 8, 'move': 3}
 
 
 def _op():
@@ -504,6 +514,7 @@ def _op():
     'addcol': st.fixed_dictionaries({'k': st.just('addcol'), 't': st.integers(0, 8)}),
     'addf': st.fixed_dictionaries({'k': st.just('addf'), 'a': _sel, 'b': _sel, 'f': st.integers(0, 4), 'name': st.integers(0, 2)}),
     'undo': st.fixed_dictionaries({'k': st.just('undo')}),
+    'move': st.fixed_dictionaries({'k': st.just('move'), 'a': _sel}),
   }
   kinds = []
   for k in sorted(WEIGHTS):
